@@ -11,6 +11,7 @@ life <idx> <b|a> <max> <behaviour,…|-> <conn|disc|reconn|health|call,…> [dea
    -> <idx> o <op observation>:<connected> … | h … | rec <n|never>
 mr  … same as bc, through `map_reduce_json`
 obs <idx> <b|a> <variant> <max> <observers> <rounds> -> <idx> all <round pattern> | <idx> first <pattern> round <k> <pattern>
+cx <idx> a <max> <rounds>            -> <idx> rounds ok   (cancellation rounds; exercised only)
 opts <idx> <b|a> <zero|dup|dupadd>   -> <idx> rejected|accepted   (what the constructors refuse)
 any line may carry a word `p=…` (parameter styles of the harness); the model ignores it
 bc <idx> <b|a> <max> <name=tag+tag=behaviour,…;…> <tag,tag|->
@@ -138,6 +139,10 @@ def step (st : Unit) (ws : List String) : Unit × String :=
     match enforced with
     | some b => (st, idx ++ (if b then " rejected" else " accepted"))
     | none => (st, idx ++ " bad-op")
+  | ["cx", idx, _fleet, _max, _rounds] =>
+    -- rounds of an async operation dropped at a drawn instant, then a healthy node: what the dropped
+    -- operation did is not predicted; the harness's oracles judge the recovery (exercised only)
+    (st, idx ++ " rounds ok")
   | ["obs", idx, fleet, variant, max, _observers, rounds] =>
     -- rounds of "the node drops one request, then is healthy" on one fleet; who else looks at the
     -- fleet meanwhile is not in the model: the prediction is the same for every number of observers
